@@ -395,12 +395,24 @@ func main() {
 			good1, good2 := comp("first message first message"), comp(strings.Repeat("second ", 300))
 			corrupt := append([]byte{0xff, 0xff, 0xff}, good1...)
 			type dctor struct {
-				name string
-				mk   func(r io.Reader) wsflate.Decompressor
+				name                  string
+				mk                    func(r io.Reader) wsflate.Decompressor
+				good1, good2, corrupt []byte
 			}
+			// a peer pair that agreed on a preset dictionary: the streams only inflate with it
+			dict := []byte("first message second message the quick brown fox ")
+			compDict := func(s string) []byte {
+				var b bytes.Buffer
+				w := wsflate.NewWriter(&b, func(w io.Writer) wsflate.Compressor { f, _ := flate.NewWriterDict(w, 6, dict); return f })
+				w.Write([]byte(s))
+				w.Flush()
+				return b.Bytes()
+			}
+			d1, d2 := compDict("first message first message"), compDict(strings.Repeat("second ", 300))
 			dctors := []dctor{
-				{"flate", func(r io.Reader) wsflate.Decompressor { return flate.NewReader(r) }},
-				{"flate-resettable", func(r io.Reader) wsflate.Decompressor { return &resettableDecomp{flate.NewReader(r)} }},
+				{"flate", func(r io.Reader) wsflate.Decompressor { return flate.NewReader(r) }, good1, good2, corrupt},
+				{"flate-resettable", func(r io.Reader) wsflate.Decompressor { return &resettableDecomp{flate.NewReader(r)} }, good1, good2, corrupt},
+				{"flate-with-preset-dictionary", func(r io.Reader) wsflate.Decompressor { return flate.NewReaderDict(r, dict) }, d1, d2, append([]byte{0xff, 0xff, 0xff}, d1...)},
 			}
 			srcKinds := []string{"bytes.Reader", "plain-chunk3", "plain-eof-with-data"}
 			mkSrc := func(kind string, data []byte) io.Reader {
@@ -426,7 +438,8 @@ func main() {
 								t.Do(func() string {
 									return fmt.Sprintf("decompressor=%s src1=%s pre=%s -> Reset(src2=%s %s)", dc.name, k1, pre, k2, second)
 								}, func() *explore.Fail {
-									data2 := map[string][]byte{"good2": good2, "good1": good1, "corrupt": corrupt}[second]
+									good1, corrupt := dc.good1, dc.corrupt
+									data2 := map[string][]byte{"good2": dc.good2, "good1": dc.good1, "corrupt": dc.corrupt}[second]
 									rd := wsflate.NewReader(mkSrc(k1, good1), dc.mk)
 									switch pre {
 									case "partial-read":
